@@ -107,22 +107,58 @@ def expectedChecks (to fr : IntTy) : List Chk :=
   else (if to.bytes ≤ fr.bytes then [.leToMaxAsFrom] else [])
 
 open Rlbox.ConvChain in
-theorem chainChecks_eq (to fr : IntTy) : chainChecks to fr Generated.convChain = expectedChecks to fr := by
+/-- same checks, in any order, duplicates allowed -/
+def sameChecks (a b : List Chk) : Bool := a.all (· ∈ b) && b.all (· ∈ a)
+
+set_option linter.unusedSimpArgs false in
+open Rlbox.ConvChain in
+/-- for every pair of integer types the translated chain selects exactly the checks the model encodes.
+Proved by full case analysis (signedness of both types x ordering of their sizes), so it does not
+depend on how the source spells or orders its mutually exclusive branches. -/
+theorem chainChecks_eq (to fr : IntTy) : sameChecks (chainChecks to fr Generated.convChain) (expectedChecks to fr) = true := by
   obtain ⟨ts, tb, tB⟩ := to
   obtain ⟨fs, fb, fB⟩ := fr
-  unfold expectedChecks
-  cases ts <;> cases fs <;>
-    simp [Generated.convChain, chainChecks, subChecks, Atom.holds] <;>
-    (try (by_cases h1 : fb ≤ tb <;> simp [h1])) <;>
-    (try (by_cases h2 : tb < fb <;> simp [h2])) <;>
-    (try (by_cases h3 : tb ≤ fb <;> simp [h3]))
+  rcases Nat.lt_trichotomy tb fb with h | h | h
+  · have h1 : ¬ fb ≤ tb := by omega
+    have h2 : tb ≤ fb := by omega
+    have h3 : ¬ fb < tb := by omega
+    have h4 : ¬ tb = fb := by omega
+    cases ts <;> cases fs <;>
+      simp [Generated.convChain, chainChecks, subChecks, Atom.holds, expectedChecks, sameChecks, h, h1, h2, h3, h4]
+  · subst h
+    cases ts <;> cases fs <;>
+      simp [Generated.convChain, chainChecks, subChecks, Atom.holds, expectedChecks, sameChecks]
+  · have h1 : fb ≤ tb := by omega
+    have h2 : ¬ tb ≤ fb := by omega
+    have h3 : ¬ tb < fb := by omega
+    have h4 : ¬ tb = fb := by omega
+    cases ts <;> cases fs <;>
+      simp [Generated.convChain, chainChecks, subChecks, Atom.holds, expectedChecks, sameChecks, h, h1, h2, h3, h4]
+
+open Rlbox.ConvChain in
+theorem checksPass_congr (to fr : IntTy) (v : Int) (a b : List Chk) (h : sameChecks a b = true) :
+    checksPass to fr v a = checksPass to fr v b := by
+  unfold sameChecks at h
+  simp only [Bool.and_eq_true, List.all_eq_true, decide_eq_true_eq] at h
+  obtain ⟨hab, hba⟩ := h
+  unfold checksPass
+  cases ha : a.all (Chk.holds to fr v) <;> cases hb : b.all (Chk.holds to fr v) <;> try rfl
+  · -- a fails, b passes: the failing check of a is in b
+    rw [List.all_eq_true] at hb
+    have : a.all (Chk.holds to fr v) = true := by
+      rw [List.all_eq_true]; intro c hc; exact hb c (hab c hc)
+    rw [this] at ha; cases ha
+  · rw [List.all_eq_true] at ha
+    have : b.all (Chk.holds to fr v) = true := by
+      rw [List.all_eq_true]; intro c hc; exact ha c (hba c hc)
+    rw [this] at hb; cases hb
 
 open Rlbox.ConvChain in
 /-- the model function about which C06 is proved is the meaning of the chain TRANSLATED from the source -/
 theorem C06_model_is_translated_source (to fr : IntTy) (v : Int) :
     convertFund to fr v = evalChain Generated.convChain to fr v := by
   unfold evalChain
-  rw [chainChecks_eq]
+  rw [checksPass_congr to fr v _ _ (chainChecks_eq to fr)]
   unfold convertFund expectedChecks
   split
   · simp [checksPass]
